@@ -36,8 +36,44 @@ TIME_CARRIERS = ["dt64ns", "dt64s", "dt64ms", "dt64us", "epoch-int", "epoch-floa
                  "pydatetime", "pydatetime-utc", "timestamp-list", "dtindex", "dtindex-utc", "series", "series-utc"]
 
 
+def ftimes(secs, carrier="dt64ns"):
+    """epoch seconds with a fractional part that is a multiple of 1 ms -> time carrier (None if the
+    carrier cannot represent sub-second instants)"""
+    ms = np.array([round(s * 1000) for s in secs], dtype="int64")
+    base = ms.astype("datetime64[ms]")
+    if carrier in ("dt64s", "epoch-int"):
+        return None
+    if carrier == "dt64ns":
+        return base.astype("datetime64[ns]")
+    if carrier == "dt64ms":
+        return base
+    if carrier == "dt64us":
+        return base.astype("datetime64[us]")
+    if carrier == "epoch-float":
+        return np.array(secs, dtype="float64")
+    if carrier == "epoch-list":
+        return [float(s) for s in secs]
+    if carrier == "pydatetime":
+        return [dt.datetime(1970, 1, 1) + dt.timedelta(milliseconds=int(m)) for m in ms]
+    if carrier == "pydatetime-utc":
+        return [dt.datetime(1970, 1, 1, tzinfo=dt.timezone.utc) + dt.timedelta(milliseconds=int(m)) for m in ms]
+    if carrier == "timestamp-list":
+        return [pd.Timestamp(int(m), unit="ms") for m in ms]
+    if carrier == "dtindex":
+        return pd.DatetimeIndex(base.astype("datetime64[ns]"))
+    if carrier == "dtindex-utc":
+        return pd.DatetimeIndex(base.astype("datetime64[ns]"), tz="UTC")
+    if carrier == "series":
+        return pd.Series(base.astype("datetime64[ns]"))
+    if carrier == "series-utc":
+        return pd.Series(pd.DatetimeIndex(base.astype("datetime64[ns]"), tz="UTC"))
+    raise KeyError(carrier)
+
+
 def times(secs, carrier="dt64ns"):
     """integer epoch seconds -> one of the documented time carriers"""
+    if any(s != int(s) for s in secs):
+        return ftimes(secs, carrier)
     base = np.array(secs, dtype="int64").astype("datetime64[s]")
     if carrier == "dt64ns":
         return base.astype("datetime64[ns]")
